@@ -2,6 +2,8 @@ SPECIFICATION Spec
 CONSTANTS Versions = {1, 2}
   MaxSteps = 3
   ReAddOnRemove = TRUE
+  CachePerFile = FALSE
+  WithRemoval = FALSE
   OnlyRotations = FALSE
   Serialized = FALSE
 INVARIANTS Converges ServedIsValidVersion
